@@ -77,8 +77,11 @@ func TestVerifC31(t *testing.T) {
 		}
 		time.Local = loc // the server's time zone
 		dir := t.TempDir()
-		layouts := []string{"rec/%path/%Y-%m-%d_%H-%M-%S-%f", "rec/%path/%Y/%m/%d/%H-%M-%S-%f", "rec/%Y-%m-%d/%path_%H-%M-%S-%f", "rec/%path/%s-%f", "rec/%path/%Y-%m-%d_%H-%M-%S-%f_%z"}
-		format := layouts[rng.IntN(4)]
+		layouts := []string{"rec/%path/%Y-%m-%d_%H-%M-%S-%f", "rec/%path/%Y/%m/%d/%H-%M-%S-%f", "rec/%Y-%m-%d/%path_%H-%M-%S-%f", "rec/%path/%s-%f", "rec/%path/%Y-%m-%d_%H-%M-%S-%f_%z", "rec/%path/%d-%m-%Y_%H-%M-%S-%f"}
+		format := layouts[[]int{0, 1, 2, 3, 5}[rng.IntN(5)]]
+		if zi2 == 2 {
+			format = layouts[5] // always once: a layout whose lexical order is not the order of the instants
+		}
 		if zi2%2 == 1 {
 			format = layouts[4] // every zone is also run with the time zone token in the file names
 		}
@@ -113,6 +116,9 @@ func TestVerifC31(t *testing.T) {
 		for k := 0; k < 14; k++ {
 			ti := day.Add(time.Duration(rng.IntN(86400*3)) * time.Second).Add(time.Duration(rng.IntN(1000000)) * time.Microsecond)
 			mk(ti)
+			if format == layouts[5] && k%2 == 0 {
+				mk(ti.Add(time.Duration(20+rng.IntN(300)) * 24 * time.Hour)) // other months: the names' order is not the instants' order
+			}
 			if k%3 == 0 {
 				// a second segment whose wall-clock time in the server's zone equals this one's wall-clock time in UTC (and vice versa)
 				mk(ti.Add(time.Duration(off) * time.Second))
@@ -122,6 +128,47 @@ func TestVerifC31(t *testing.T) {
 		others := []string{filepath.Join(dir, "rec", "note.txt")}
 		os.MkdirAll(filepath.Dir(others[0]), 0o755) //nolint:errcheck
 		os.WriteFile(others[0], []byte("keep"), 0o644) //nolint:errcheck
+		// ---- look-alikes: names that match the layout but that the recorder can never produce. They are not segments:
+		// never listed, never deleted.
+		//  (a) a wall-clock time inside the hour skipped when daylight saving starts in the server's zone
+		//  (b) a zero offset written +0000 where the recorder writes Z
+		if !strings.Contains(format, "%s") && !strings.Contains(format, "%z") {
+		gap:
+			for m := 1; m <= 12; m++ {
+				for d := 1; d <= 28; d++ {
+					for h := 0; h < 24; h++ {
+						tg := time.Date(2024, time.Month(m), d, h, 30, 0, 0, loc)
+						if tg.Hour() == h {
+							continue
+						}
+						canon := c31Name(pconf.RecordPath, "cam", tg) + ".mp4" // the name of the normalised time (one hour later)
+						b := filepath.Base(canon)
+						want := fmt.Sprintf("%02d-30-00-", tg.Hour())
+						if i := strings.Index(b, want); i >= 0 && (i == 0 || b[i-1] == '_') {
+							la := filepath.Join(filepath.Dir(canon), b[:i]+fmt.Sprintf("%02d-30-00-", h)+b[i+len(want):])
+							os.MkdirAll(filepath.Dir(la), 0o755)      //nolint:errcheck
+							os.WriteFile(la, []byte("keep"), 0o644) //nolint:errcheck
+							others = append(others, la)
+							mk(tg) // the real segment at the normalised instant
+							r.Count("lookalike_name_in_skipped_hour", 1)
+						}
+						break gap
+					}
+				}
+			}
+		}
+		if strings.Contains(format, "%z") {
+			for k, p := range instants {
+				if strings.HasSuffix(p, "_Z.mp4") {
+					la := strings.TrimSuffix(p, "_Z.mp4") + "_+0000.mp4"
+					os.WriteFile(la, []byte("keep"), 0o644) //nolint:errcheck
+					others = append(others, la)
+					r.Count("lookalike_name_zero_offset_written_numerically", 1)
+					_ = k
+					break
+				}
+			}
+		}
 		// ---- the three views agree on the instants
 		views := func() (api, store []int64) {
 			res, err2 := hc.Get(base + "/v3/recordings/get/cam")
@@ -164,6 +211,29 @@ func TestVerifC31(t *testing.T) {
 		}
 		if !eq(sv2, truth()) {
 			r.Violation("playback-instants-wrong", fmt.Sprintf("server zone %s: recordstore.FindSegments (the playback view) yields start instants that differ from the ones the files were named with", zn), map[string]any{"store": sv2, "truth": truth()})
+		}
+		// ---- the playback view finds, for the start instant of a segment, that very segment first (and lists in order)
+		{
+			keys := truth()
+			for k := 0; k < 6 && k < len(keys); k++ {
+				st := time.UnixMicro(keys[rng.IntN(len(keys))])
+				segs, ferr := recordstore.FindSegments(pconf, "cam", &st, nil)
+				if ferr != nil || len(segs) == 0 || segs[0].Start.UnixMicro() != st.UnixMicro() {
+					got := "nothing"
+					if len(segs) > 0 {
+						got = segs[0].Start.UTC().Format(time.RFC3339Nano)
+					}
+					r.Violation("playback-start-lookup-wrong", fmt.Sprintf("server zone %s, record path %s: a segment starts at %s (listed by the API, deletable at that instant), but the record store queried from that instant yields %s first (error %v)", zn, format, st.UTC().Format(time.RFC3339Nano), got, ferr), nil)
+					break
+				}
+				for i := 1; i < len(segs); i++ {
+					if segs[i].Start.Before(segs[i-1].Start) {
+						r.Violation("playback-order-wrong", fmt.Sprintf("server zone %s, record path %s: the record store lists the segment starting at %s after the one starting at %s", zn, format, segs[i].Start.UTC().Format(time.RFC3339Nano), segs[i-1].Start.UTC().Format(time.RFC3339Nano)), nil)
+						break
+					}
+				}
+				r.Count("playback_start_lookups", 1)
+			}
 		}
 		// ---- deletions
 		for op := 0; op < opsPerZone; op++ {
@@ -264,6 +334,6 @@ func TestVerifC31(t *testing.T) {
 		}
 		a.Close()
 	}
-	r.Finish("the real API (recordings get + deletesegment over HTTP) with the process time zone set to UTC, Asia/Kolkata, America/St_Johns, Europe/London, Pacific/Chatham, Europe/Rome, America/Los_Angeles, Asia/Kathmandu (quick: four of them by seed); segments are files named the way the recorder names them (start instant in the server's zone, microseconds) in five record path layouts (incl. one with the %z token and one with unix time), named by the harness' own encoder, including pairs whose instants differ exactly by the zone offset; deletions name an instant (4 of 5 existing, else a near miss) written with a random UTC offset (Z, the server's, +05:30, -03:30, +12:45, arbitrary). Oracle: directory before / after: exactly the segment that starts at that instant is removed and 200 answered, or nothing is removed and an error answered; the API listing and recordstore.FindSegments (playback's view) report exactly the instants the files were named with, also after deletions. non-trivial = distinct (zone, written instant)",
+	r.Finish("the real API (recordings get + deletesegment over HTTP; record paths incl. one with the time zone token and a day-month-year layout whose lexical order is not chronological; look-alike names in the hour skipped by daylight saving and with a numerically written zero offset) with the process time zone set to UTC, Asia/Kolkata, America/St_Johns, Europe/London, Pacific/Chatham, Europe/Rome, America/Los_Angeles, Asia/Kathmandu (quick: four of them by seed); segments are files named the way the recorder names them (start instant in the server's zone, microseconds) in five record path layouts (incl. one with the %z token and one with unix time), named by the harness' own encoder, including pairs whose instants differ exactly by the zone offset; deletions name an instant (4 of 5 existing, else a near miss) written with a random UTC offset (Z, the server's, +05:30, -03:30, +12:45, arbitrary). Oracle: directory before / after: exactly the segment that starts at that instant is removed and 200 answered, or nothing is removed and an error answered; the API listing and recordstore.FindSegments (playback's view) report exactly the instants the files were named with, also after deletions. non-trivial = distinct (zone, written instant)",
 		"the playback view is taken at recordstore.FindSegments, the function both playback endpoints start from (its HTTP layer is exercised by C29); segment files hold a placeholder (deletion does not read them)")
 }
